@@ -136,6 +136,7 @@ func runC18(run *Run, seed int64, l c18List, carriers []string, reclaim time.Dur
 		cf.PushPullInterval = 0
 		cf.CIDRsAllowed = nets
 		cf.DeadNodeReclaimTime = reclaim
+		cf.HandoffQueueDepth = 64
 	}}})
 	if err != nil {
 		return []*c01Result{{"C18/harness/create", err.Error()}}, nil
@@ -372,6 +373,42 @@ func runC18(run *Run, seed int64, l c18List, carriers []string, reclaim time.Dur
 	}
 	if !checkAll("end") {
 		return
+	}
+	// the hand-off queue is full (the application is busy in its delegate) with announcements from an allowed source
+	// when an announcement arrives from a disallowed one: whatever the overflow policy, it must not be admitted on
+	// the strength of somebody else's source address
+	if o != nil && oracle.allowed(l.InAddr) {
+		gate := make(chan struct{})
+		rig.V.Del.mu.Lock()
+		rig.V.Del.Gate = gate
+		rig.V.Del.mu.Unlock()
+		inj := func(from *FakePeer, msg []byte) { rig.C.Net.Inject(rig.V.EP, from.EP.Addr, BuildPacket(rig.PCfg, msg, rig.Rng)) }
+		inj(x, append([]byte{TUser}, []byte("keeps-the-delegate-busy")...))
+		Settle(time.Millisecond)
+		for i := 0; i < 64; i++ {
+			inj(x, Enc(TAlive, &WAlive{Incarnation: 1, Node: fmt.Sprintf("fill-%02d", i), Addr: append([]byte(nil), l.InAddr...), Port: uint16(7000 + i), Meta: []byte("m"), Vsn: DefaultVsn()}))
+		}
+		Settle(time.Millisecond)
+		for i := 0; i < 4; i++ {
+			inj(o, Enc(TAlive, &WAlive{Incarnation: 1, Node: fmt.Sprintf("via-outsider-%d", i), Addr: append([]byte(nil), l.InAddr...), Port: uint16(7100 + i), Meta: []byte("m"), Vsn: DefaultVsn()}))
+		}
+		Settle(time.Millisecond)
+		close(gate)
+		Settle(50 * time.Millisecond)
+		rig.V.Del.mu.Lock()
+		rig.V.Del.Gate = nil
+		rig.V.Del.mu.Unlock()
+		run.Cell("handoff-full", "alive-from-disallowed-source")
+		run.Eval(1)
+		for i := 0; i < 4; i++ {
+			if r := rig.V.Record(fmt.Sprintf("via-outsider-%d", i)); r != nil && !isPlaceholder(r) {
+				fail("effect/handoff-full/badsrc", "an alive announcement that arrived from the disallowed source %s while the hand-off queue was full (64 announcements from an allowed source waiting) was acted on: %s", o.EP.Addr, recString(r))
+				return
+			}
+		}
+		if !checkAll("handoff-full") {
+			return
+		}
 	}
 	// two large state exchanges in a row: the first admits hundreds of members at an allowed address, the second
 	// names outsiders at the same positions of its list. Whatever is rejected from the second must leave the
